@@ -826,9 +826,21 @@ fn cw20_drawn(n: usize, by_spender: bool) -> Result<Built, String> {
     let sorted = sorted_users(n);
     let mut out_ref: Vec<u128> = (0..n).map(|i| (i + 10) as u128).collect(); // P -> u_i
     let mut in_ref: Vec<u128> = (0..n).map(|i| (i + 50) as u128).collect(); // u_i -> P
+    // some pairs are created by a first-time grant of amount 0 without an expiry: a zero-amount pair
+    // from the start (positions in key order: out p%5==4, in p%5==2; the last / first pair for tiny n)
+    for (pos, (_, i)) in sorted.iter().enumerate() {
+        if pos % 5 == 4 || (n >= 2 && n < 5 && pos == n - 1) {
+            out_ref[*i] = 0;
+        }
+        if pos % 5 == 2 || (n >= 2 && n < 5 && pos == 0) {
+            in_ref[*i] = 0;
+        }
+    }
     for i in 0..n {
-        b.exec(&p, &c, json!({"increase_allowance": {"spender": user(i), "amount": out_ref[i].to_string(), "expires": cw20_expiry(i)}}))?;
-        b.exec(&user(i), &c, json!({"increase_allowance": {"spender": p, "amount": in_ref[i].to_string(), "expires": cw20_expiry(i + 1)}}))?;
+        let e_out = if out_ref[i] == 0 { Value::Null } else { cw20_expiry(i) };
+        let e_in = if in_ref[i] == 0 { Value::Null } else { cw20_expiry(i + 1) };
+        b.exec(&p, &c, json!({"increase_allowance": {"spender": user(i), "amount": out_ref[i].to_string(), "expires": e_out}}))?;
+        b.exec(&user(i), &c, json!({"increase_allowance": {"spender": p, "amount": in_ref[i].to_string(), "expires": e_in}}))?;
     }
     let draw = |k: usize, owner: &str, amount: u128| -> Value {
         match k % 3 {
@@ -841,11 +853,17 @@ fn cw20_drawn(n: usize, by_spender: bool) -> Result<Built, String> {
     let z_in = shifted_positions(n);
     for (k, pos) in z_out.iter().enumerate() {
         let (addr, i) = &sorted[*pos];
+        if out_ref[*i] == 0 {
+            continue;
+        }
         b.exec(addr, &c, draw(k, &p, out_ref[*i]))?;
         out_ref[*i] = 0;
     }
     for (k, pos) in z_in.iter().enumerate() {
         let (addr, i) = &sorted[*pos];
+        if in_ref[*i] == 0 {
+            continue;
+        }
         b.exec(&p, &c, draw(k + 1, addr, in_ref[*i]))?;
         in_ref[*i] = 0;
     }
